@@ -89,7 +89,7 @@ where
             })
             .unwrap();
 
-        connection.session_expiry_interval >= elapsed
+        connection.session_expiry_interval < elapsed
     }
 
     fn reset_session(session: &mut Session) {
